@@ -1,11 +1,11 @@
 (* C03 — a serial target queue (or workloop) serialises every queue targeting it.
-   PARTIAL: proved is the one word-level mechanism with a generated body: (re)targeting sets the role bits of the
-   queue to exactly the role of its new target (inner queue vs base queue), which is what the sync hand-off code
-   tests to decide whether a woken waiter must first take the target's lock.  The hierarchy argument itself
-   (items of an inner queue run only inside an invoke of the queue on its target; sync acquires every level) is
-   control flow of src/queue.c that is not modelled; it is decided on the implementation by the stress oracle
-   (one in-flight counter per serial bottom queue over generated hierarchies, incl. retargeting of active and of
-   inactive queues).  Workloop-bottomed hierarchies: see the known finding in DESIGN.md. *)
+   THIS FILE holds the one word-level mechanism with a generated body: (re)targeting sets the role bits of the queue to
+   exactly the role of its new target (inner queue vs base queue), which is what the sync hand-off code tests to decide
+   whether a woken waiter must first take the target's lock.  The hierarchy protocol over all interleavings (items of
+   an inner lane run only inside a nested invoke of the lane on its target; global exclusion below one serial bottom;
+   per-lane FIFO; nothing stranded; termination measure) is in Properties_C03_hlane.v for forests of serial lanes
+   under dispatch_async; sync through levels, concurrent inner queues and workloop bottoms are decided on the
+   implementation by the stress oracle (one in-flight counter per serial bottom over generated hierarchies). *)
 From Coq Require Import ZArith Bool List.
 From Verif Require Import Word Gen_consts Gen_dqstate Suspend_proofs Lane_iface.
 Import ListNotations.
